@@ -206,7 +206,13 @@ func TestVerifC14d(t *testing.T) {
 
 type c14eCase struct {
 	Payloads [][]byte `json:"payloads"`
+	// Subjects[i] selects the last token of the NATS subject payload i is
+	// published to (the stream's subject ends in a wildcard): 0 is "x", the
+	// others are byte strings that are not valid UTF-8
+	Subjects []int `json:"subjects,omitempty"`
 }
+
+var c14eSubjectTokens = []string{"x", "\xff", "\xc3\x28", "a\xe2\x82", "\x80\x80"}
 
 // c14eMaxBytes is clustering.replication.max.bytes of the C14e server: payloads
 // above it are refused (C04), and the refusal goes to the sender's ack inbox.
@@ -229,6 +235,24 @@ func genC14e(t *rapid.T) c14eCase {
 			}
 			env := append([]byte{}, vfutil.EnvelopeMagic...)
 			env = append(env, 0, 8, 0, 0)
+			c.Payloads = append(c.Payloads, append(env, b...))
+			continue
+		}
+		if rapid.IntRange(0, 5).Draw(t, "hostile-subject?") == 0 {
+			// a well-formed publish envelope that asks for an acknowledgement,
+			// published to a subject whose last token is not valid UTF-8 (the
+			// acknowledgement names the subject)
+			m := &client.Message{Value: []byte("hs"), AckInbox: "_INBOX.ok", AckPolicy: client.AckPolicy(rapid.IntRange(0, 1).Draw(t, "hs-policy")), CorrelationId: "c"}
+			b, err := pb.Marshal(m)
+			if err != nil {
+				panic(err)
+			}
+			env := append([]byte{}, vfutil.EnvelopeMagic...)
+			env = append(env, 0, 8, 0, 0)
+			for len(c.Subjects) < len(c.Payloads) {
+				c.Subjects = append(c.Subjects, 0)
+			}
+			c.Subjects = append(c.Subjects, rapid.IntRange(1, len(c14eSubjectTokens)-1).Draw(t, "hs-token"))
 			c.Payloads = append(c.Payloads, append(env, b...))
 			continue
 		}
@@ -285,7 +309,7 @@ func runC14e(c c14eCase, o *vfutil.Obs) *vfutil.Failure {
 	name := l3Name("raw")
 	a := l.s.api
 	ctx, cancel := ctxFor("", 20*time.Second)
-	_, err = a.CreateStream(ctx, &client.CreateStreamRequest{Name: name, Subject: name, Partitions: 1})
+	_, err = a.CreateStream(ctx, &client.CreateStreamRequest{Name: name, Subject: name + ".*", Partitions: 1})
 	cancel()
 	if err != nil {
 		return vfutil.Failf("harness/create", "%v", err)
@@ -303,8 +327,15 @@ func runC14e(c c14eCase, o *vfutil.Obs) *vfutil.Failure {
 		return vfutil.Failf("harness/nats", "%v", err)
 	}
 	defer nc.Close()
-	for _, d := range c.Payloads {
-		if err := nc.Publish(name, d); err != nil {
+	for i, d := range c.Payloads {
+		tok := c14eSubjectTokens[0]
+		if i < len(c.Subjects) {
+			tok = c14eSubjectTokens[c.Subjects[i]%len(c14eSubjectTokens)]
+			if c.Subjects[i] != 0 {
+				o.Label("subject-not-utf8")
+			}
+		}
+		if err := nc.Publish(name+"."+tok, d); err != nil {
 			return vfutil.Failf("harness/nats-publish", "%v", err)
 		}
 	}
